@@ -21,12 +21,14 @@ def rhs_src(r, obliv):
     import re
     if not obliv:
         r = re.sub(r"m([01])0", r"m[\1][0]", r)
+        r = re.sub(r"q([01])([01])", r"q[\1][\2]", r)
         r = re.sub(r"a([01])", r"a[\1]", r)
         return re.sub(r"l([01])", r"l[\1]", r).replace("F", "f")
     out = r
     for v in ("x", "y", "k", "w"):
         out = out.replace(v, "_." + v)
     out = re.sub(r"m([01])0", r"_.m[\1][0]", out)
+    out = re.sub(r"q([01])([01])", r"_.q[\1][\2]", out)
     out = re.sub(r"a([01])", r"_.a[\1]", out)
     return re.sub(r"l([01])", r"_.l[\1]", out)
 
@@ -73,6 +75,13 @@ class Emitter:
             elif st[1] in ("m00", "m10"):
                 # element of a NESTED list, modified in place
                 tgt = ("_.m[%s][0]" if o else "m[%s][0]") % st[1][1]
+            elif st[1] in ("q01", "q10", "q11"):
+                # element of a 2-D Array object, written in place: q01 as q[0][1], q10 through the tuple form q[1, 0]
+                i_, j_ = st[1][1], st[1][2]
+                if st[1] == "q10":
+                    tgt = ("_.q[%s, %s]" if o else "q[%s][%s]") % (i_, j_)
+                else:
+                    tgt = ("_.q[%s][%s]" if o else "q[%s][%s]") % (i_, j_)
             elif st[1] in ("a0", "a1"):
                 # element of an Array object held in the context, modified in place
                 tgt = ("_.a[%s]" if o else "a[%s]") % st[1][1]
@@ -158,8 +167,9 @@ def emit_program(stmts, obliv, explicit_ctx=True):
         e.emit(1, "_.w = 1.5")
         e.emit(1, "_.m = [[X], [Y]]")   # mutable containers below the top level
         e.emit(1, "_.a = Array([X, Y])")
+        e.emit(1, "_.q = Array([Array([X, Y]), Array([Y, X])])")
         e.block(stmts, 1)
-        e.emit(1, "return _.x, _.y, _, _.l, _.k, _.w, _.m, _.a")
+        e.emit(1, "return _.x, _.y, _, _.l, _.k, _.w, _.m, _.a, _.q")
     else:
         e.emit(0, "def prog(x, y, b, n, f=None):")
         e.emit(1, "l = [x, y]")
@@ -167,8 +177,9 @@ def emit_program(stmts, obliv, explicit_ctx=True):
         e.emit(1, "w = 1.5")
         e.emit(1, "m = [[x], [y]]")
         e.emit(1, "a = [x, y]")
+        e.emit(1, "q = [[x, y], [y, x]]")
         e.block(stmts, 1)
-        e.emit(1, "return x, y, l, k, w, m, a")
+        e.emit(1, "return x, y, l, k, w, m, a, q")
     return "\n".join(e.lines) + "\n"
 
 
@@ -280,12 +291,12 @@ def programs(level):
         out.append([("if", [("b", [("for", 2, [a], False)])], None)])
     # --- containers below the top level (nested list, Array object) modified in place
     NM = [("assign", "m00", "m00+1"), ("assign", "m10", "x"), ("assign", "m10", "m00+m10"), ("assign", "a0", "a0+1"),
-          ("assign", "a1", "a0*2"), ("assign", "a0", "y")]
+          ("assign", "a1", "a0*2"), ("assign", "a0", "y"), ("assign", "q01", "q01+1"), ("assign", "q10", "x+q11"), ("assign", "q11", "7")]
     for a in NM:
         for c in CONDS:
             out.append([("if", [(c, [a])], None)])
             out.append([("if", [(c, [A[0]])], [a])])
-            out.append([("if", [(c, [a])], [NM[1] if a[1][0] == "m" else NM[4]])])
+            out.append([("if", [(c, [a])], [NM[1] if a[1][0] == "m" else (NM[4] if a[1][0] == "a" else NM[8])])])
         for mx in (2, 3):
             out.append([("for", mx, [a], False)])
             out.append([("while", "i!=n", mx, [a], "b")])
